@@ -1,3 +1,3 @@
-(* _client.py :: async_ncrypt_unprotect_secret :: ('callarg', '_async_get_key', 0, 'username') :  username *)
+(* _client.py :: async_ncrypt_unprotect_secret :: shape kernel :  _async_get_key(... username: username  [= username] ...) *)
 Definition k_onl_aunprot_kw_username (username : list Z) : list Z :=
   username.
